@@ -392,3 +392,58 @@ def RenInOK (x a b : String) (ti : TypeInfo) (p : Program) : Bool :=
   && !((insOf ti x).map (·.1)).contains b
 
 end Martian.Refactor
+
+namespace Martian.Refactor
+
+/-- apply `g` to (callable, path) of every stage-output reference -/
+def mapSref (g : String → List String → String × List String) : RExp → RExp
+  | .lit s => .lit s
+  | .sref fq c path => .sref fq (g c path).1 (g c path).2
+  | .split e => .split (mapSref g e)
+  | .arr es => .arr (mapSref g es)
+  | .map st es => .map st (mapSref g es)
+  | .nil => .nil
+  | .cons k h t => .cons k (mapSref g h) (mapSref g t)
+
+def mapVals (f : RExp → RExp) (env : Env) : Env := env.map fun kv => (kv.1, f kv.2)
+
+/-- callable name `x` becomes `y` -/
+def renName (x y n : String) : String := if n = x then y else n
+
+def renCallR (x y : String) : RExp → RExp := mapSref (fun c path => (renName x y c, path))
+
+/-- the node after callable `x` was renamed to `y`: the callable's name, and the
+callable named in every reference to a stage output -/
+def renNodeCallable (x y : String) (n : Node) : Node :=
+  { fqid := n.fqid, callable := renName x y n.callable, isPipe := n.isPipe,
+    inputs := mapVals (renCallR x y) n.inputs, outputs := renCallR x y n.outputs,
+    retained := n.retained.map (renCallR x y) }
+
+/-- no declared type mentions `x` (a callable's name may be used as a struct
+type: known finding KF2 when that callable is renamed) -/
+def typesAvoid (x : String) (ti : TypeInfo) : Bool :=
+  let ok (ms : Members) : Bool := ms.all (fun m => m.2.base != x)
+  !(ti.structs.map (·.1)).contains x
+  && ti.structs.all (fun s => ok s.2) && ti.ins.all (fun s => ok s.2) && ti.outs.all (fun s => ok s.2)
+
+def pipeOKCall (x : String) (c : Callable) : Bool :=
+  (c.isPipe || c.calls.isEmpty)
+  && decide (callIds c).Nodup
+  && c.calls.all (fun k => noStar k.binds)
+  && noStar c.ret
+  && (c.name != x || c.calls.all (fun k => k.decId != x))
+
+/-- **hypothesis of `rename_callable_graph`** on the id-erased program (decidable):
+`y` is fresh (no callable, no call of a callable `y`, no signature, not a type),
+`x` is not used as a type (KF2), no wildcard bindings (KF1), distinct call ids. -/
+def RenCallOK (x y : String) (ti : TypeInfo) (p : Program) : Bool :=
+  x != "" && y != "" && x != y
+  && (p.find? x).isSome
+  && !(p.callables.any (·.name == y))
+  && p.callables.all (fun c => c.calls.all (fun k => k.decId != y))
+  && p.callables.all (pipeOKCall x)
+  && (match p.top with | some t => t.decId != y && pipeOKCall x (topPipe t) | none => true)
+  && typesAvoid x ti && typesAvoid y ti
+  && !(ti.ins.map (·.1)).contains y && !(ti.outs.map (·.1)).contains y
+
+end Martian.Refactor
